@@ -22,6 +22,7 @@ import (
 type ItemScript struct {
 	K   int  `json:"k"`             // 1-based index of the first succeeding attempt (> budget: never)
 	FBE bool `json:"fbe,omitempty"` // the fallback (if installed) fails
+	Nil bool `json:"nil,omitempty"` // a successful attempt returns a nil value (a zero Result is then the item's genuine outcome)
 }
 
 // CancelSpec injects a cancellation.
@@ -68,6 +69,11 @@ type Prelude struct {
 	N        int          `json:"n"`
 	Items    []ItemScript `json:"items"`
 	PostFail bool         `json:"post_fail,omitempty"`
+	// the earlier run used this configuration; afterwards the node is re-configured to the case's Budget / C
+	// (ReVia: "builder" = builder methods, "option" = the public options applied to the node's BaseNode)
+	Budget int    `json:"budget,omitempty"`
+	C      int    `json:"c,omitempty"`
+	ReVia  string `json:"re_via,omitempty"`
 }
 
 type bItem struct {
@@ -129,6 +135,7 @@ type BatchObs struct {
 	FBCalls     []int    `json:"fb_calls"`
 	FBArgOK     []bool   `json:"fb_arg_ok"`
 	FBErrOK     []bool   `json:"fb_err_ok"`
+	KeptChanged         []string `json:"kept_changed,omitempty"` // results of an earlier run (kept by the caller) that changed during the later run
 	ParkedAtReturn      int `json:"parked_at_return,omitempty"`      // exec calls still parked when Run returned
 	CallbacksAfterReturn int `json:"callbacks_after_return,omitempty"` // callbacks that STARTED after Run had returned
 	Snapshots   int64    `json:"snapshots"`
@@ -194,6 +201,13 @@ type batchRun struct {
 	// lean mode (no synchronisation): per-item arrays only
 	leanAttempts []int
 	leanPost     int
+
+	builder *flyt.BatchNodeBuilder // the node as built (for re-configuration between runs)
+	// results handed to the post of the earlier run, as the caller kept them, and what they looked like then
+	keptRes    []flyt.Result
+	keptDesc   []Slot
+	keptNonce  int
+	postResRaw []flyt.Result // the very slice post received (not a copy)
 }
 
 var nonceCtr atomic.Int64
@@ -369,6 +383,9 @@ func (b *batchRun) exec(ctx context.Context, item any) (any, error) {
 			time.Sleep(time.Duration((i*7+a*3)%b.cs.SleepUs) * time.Microsecond)
 		}
 		if a >= b.script(i).K {
+			if b.script(i).Nil {
+				return nil, nil
+			}
 			return &bOut{b.nonce, i, a, false}, nil
 		}
 		if b.cs.CtxLike {
@@ -440,6 +457,9 @@ func (b *batchRun) exec(ctx context.Context, item any) (any, error) {
 		}()
 	}
 	if ok {
+		if b.script(i).Nil {
+			return nil, nil
+		}
 		return &bOut{b.nonce, i, a, false}, nil
 	}
 	return nil, err
@@ -538,6 +558,7 @@ func (b *batchRun) post(ctx context.Context, s *flyt.SharedStore, items, results
 	}
 	b.postItemsOK = ok
 	b.postRes = append([]flyt.Result(nil), results...)
+	b.postResRaw = results
 	b.mu.Unlock()
 	b.record(BEvent{Kind: "post", Item: -1})
 	if b.cs.PostFail {
@@ -551,7 +572,27 @@ func (b *batchRun) post(ctx context.Context, s *flyt.SharedStore, items, results
 
 // build constructs the batch node for the case.
 func (b *batchRun) build() flyt.Node {
+	n := b.build0()
+	switch x := n.(type) {
+	case *flyt.BatchNodeBuilder:
+		b.builder = x
+	case *flyt.BatchNode:
+		b.builder = &flyt.BatchNodeBuilder{BatchNode: x}
+	}
+	return n
+}
+
+func (b *batchRun) build0() flyt.Node {
 	cs := b.cs
+	if cs.Prelude != nil && (cs.Prelude.Budget > 0 || cs.Prelude.ReVia != "") {
+		// built with the EARLIER configuration; re-configured after the earlier run
+		c2 := *cs
+		if cs.Prelude.Budget > 0 {
+			c2.Budget = cs.Prelude.Budget
+		}
+		c2.C = cs.Prelude.C
+		cs = &c2
+	}
 	execR := func(ctx context.Context, it flyt.Result) (flyt.Result, error) {
 		v, err := b.exec(ctx, it.Value())
 		if err != nil {
@@ -674,7 +715,7 @@ func runBatchCase(cs *BatchCase) *BatchObs {
 		// an earlier run of the very same node object, free-running; nothing of it may be visible in the observed run
 		pcs := *cs
 		pcs.N, pcs.Items, pcs.PostFail = cs.Prelude.N, cs.Prelude.Items, cs.Prelude.PostFail
-		pcs.Gated, pcs.Cancel, pcs.DwellMs, pcs.Prelude, pcs.Lean = false, nil, 0, nil, false
+		pcs.Gated, pcs.Cancel, pcs.DwellMs, pcs.Prelude, pcs.Lean, pcs.SleepUs, pcs.WaitMs, pcs.WaitHour = false, nil, 0, nil, false, 0, 0, false
 		b.cs = &pcs
 		b.reset()
 		pdone := make(chan struct{})
@@ -689,8 +730,25 @@ func runBatchCase(cs *BatchCase) *BatchObs {
 			obs.Incon = "prelude run did not return"
 			return obs
 		}
+		// the caller keeps what post was given (e.g. stores it): a later run must not touch it
+		b.mu.Lock()
+		b.keptRes = b.postResRaw
+		for _, r := range b.keptRes {
+			b.keptDesc = append(b.keptDesc, b.describeSlot(r, context.Background()))
+		}
+		keptNonce := b.nonce
+		b.mu.Unlock()
+		if cs.Prelude.ReVia != "" && b.builder != nil {
+			if cs.Prelude.ReVia == "option" {
+				flyt.WithMaxRetries(cs.Budget)(b.builder.BaseNode)
+				flyt.WithBatchConcurrency(cs.C)(b.builder.BaseNode)
+			} else {
+				b.builder.WithMaxRetries(cs.Budget).WithBatchConcurrency(cs.C)
+			}
+		}
 		b.cs = cs
 		b.reset()
+		b.keptNonce = keptNonce
 	}
 	var ctx context.Context = context.Background()
 	stop := func() {}
@@ -928,6 +986,17 @@ func runBatchCase(cs *BatchCase) *BatchObs {
 	}
 	for _, r := range b.postRes {
 		obs.Slots = append(obs.Slots, b.describeSlot(r, ctx))
+	}
+	if b.keptRes != nil {
+		saved := b.nonce
+		b.nonce = b.keptNonce
+		for i, r := range b.keptRes {
+			now := b.describeSlot(r, context.Background())
+			if i < len(b.keptDesc) && now != b.keptDesc[i] {
+				obs.KeptChanged = append(obs.KeptChanged, fmt.Sprintf("result %d of the earlier run was %+v when post received it and is %+v after the later run", i, b.keptDesc[i], now))
+			}
+		}
+		b.nonce = saved
 	}
 	return obs
 }
